@@ -123,6 +123,9 @@ def cases(chk):
     ]
     for c in corpus:
         yield "history", c
+    # the same histories with the setting stored as other values of the same truth value (0, None, "" / 1, "yes")
+    for i, c in enumerate(corpus):
+        yield "history", dict(c, flavour=1 + i % 3)
     for _ in range(chk.scale(40, 1200)):
         nc = r.choice([1, 1, 2])
         evs = []
@@ -134,11 +137,11 @@ def cases(chk):
                 evs.append([k, r.randrange(2)])
             else:
                 evs.append([k])
-        yield "history", {"auto": r.random() < 0.5, "contacts": nc, "events": evs}
+        yield "history", {"auto": r.random() < 0.5, "contacts": nc, "events": evs, "flavour": r.choice([0, 0, 1, 2, 3])}
 
 
 def nontrivial(stream, case):
-    return (case["auto"], case["contacts"], tuple(tuple(e) for e in case["events"]))
+    return (case["auto"], case["contacts"], tuple(tuple(e) for e in case["events"]), case.get("flavour", 0))
 
 
 def shrink(stream, case):
@@ -147,12 +150,22 @@ def shrink(stream, case):
         yield dict(case, events=evs[:i] + evs[i + 1:])
 
 
+OFF_VALUES = [False, 0, None, ""]          # "automatic trust is off", as an application may store it
+ON_VALUES = [True, 1, "yes"]
+
+
+def flavour(case, on):
+    """the concrete value the application stores for the setting (case["flavour"] picks it; the meaning is its truth value)"""
+    k = case.get("flavour", 0)
+    return ON_VALUES[k % len(ON_VALUES)] if on else OFF_VALUES[k % len(OFF_VALUES)]
+
+
 class World(object):
     def __init__(self, chk, case, seed):
         self.rng = random.Random(seed)
         self.srv = sim.Server(self.rng)
         self.srv.install()
-        self.A = sim.Client(self.srv, OBSERVER_PHONE, autotrust=bool(case["auto"]))
+        self.A = sim.Client(self.srv, OBSERVER_PHONE, autotrust=flavour(case, bool(case["auto"])))
         self.srv.add_client(self.A)
         self.installs = [[] for _ in range(case["contacts"])]      # per contact: Clients, oldest first
         self.sender_identity = {}                                  # message id -> identity bytes of the install that sent it
@@ -271,7 +284,7 @@ def run_case(chk, stream, case):
                     d.ask("trust ev restart")
             elif kind == "auto":
                 auto = bool(ev[1])
-                A.set_autotrust(auto)
+                A.set_autotrust(flavour(case, auto))
                 if not diverged:
                     d.ask("trust ev setAuto %d" % (1 if auto else 0))
             if w.srv.raised:
